@@ -200,7 +200,12 @@ CLAIMED["C11"] = dict(
          "2Nt-point axis assigns to it (axis_displacement_witness: the recorded two-point displacement, a known finding). Dipole "
          "algebra over any commutative ring: strengths scale with the square of a common factor, scalar products (strengths and "
          "dipole-dipole geometry factors) are invariant under a common orthogonal rotation, and the exciton transformation conserves the "
-         "total dipole strength (sum rule) for every orthogonal S. Tied to the code by comparing every sample of calculate(raw=True) "
+         "total dipole strength (sum rule) for every orthogonal S. The assembled spectrum A(j) = sum_a |D_a|^2 line(c_a, w_a)(j) with "
+         "D_a = sum_k S_ka d_k and c_a = sum_kl S_ka^2 S_la^2 C_kl (for ANY line-shape map): a common dipole factor s multiplies every "
+         "sample by s^2, a common rotation and a relabelling of the molecules (rows of S, dipoles and baths permuted together) and a "
+         "reordering of the eigenstates leave every sample unchanged, equal line integrals give integral = I sum_k |d_k|^2 whatever the "
+         "couplings, uncoupled sites give the sum of the monomer lines (Props/C11Spectrum.lean). Tied to the code by comparing the "
+         "exciton correlation function of _excitonic_coft with sum_k S_ka^4 c_k from the site functions (1e-12), every sample of calculate(raw=True) "
          "with the Fourier sum selected by the Lean index map evaluated on the package's own line-shape functions (2e-14 relative), "
          "the returned axis with rwa + index*pi/(Nt dt), and by the oracle: dipole scaling, common rotation (also with point-dipole "
          "couplings), relabelling, coupling-independent integral = 2 pi sum|d_k|^2, unchanged Hamiltonian/dipole operator/tensor, repeated "
@@ -357,9 +362,14 @@ CLAIMED["C12"] = dict(
          "(m4_is_gram_inverse, decide); the prefactor is invariant under a common rotation/reflection of all dipoles or of all "
          "polarisations and scales with s^4 (pref_rotate_dipoles, pref_rotate_fields, pref_scale_dipoles); the sum over pathway types "
          "is the sum over the signals (total_eq_sum_of_signals, C19 tables). Tied to the code by comparing pref of every generated "
-         "pathway with the rational model and with an independent degree-4-exact quadrature over SO(3). Partial (measured on the "
-         "implementation, not proved): rotation, scaling, total = R + NR and the additivity of uncoupled molecules for the SPECTRA "
-         "(pathway generation and line shapes are not modelled).",
+         "pathway with the rational model and with an independent degree-4-exact quadrature over SO(3). Additivity for uncoupled "
+         "molecules rests on the line shape of the excited-state-absorption transitions: the three width / dephasing-rate blocks that "
+         "diagonalize() builds (one-exciton, two-exciton, cross terms) are modelled (Model/C12W.lean), compared block by block with "
+         "Wd and Dr of coupled two- and three-site aggregates for both line shapes (driver op widths, 1e-10), and for the identity "
+         "eigenvector matrix the combination g_ee + g_ff - 2 g_fe used by get_transition_width / get_transition_dephasing is PROVED "
+         "to be the value of the molecule that is being excited (uncoupled_first, uncoupled_second). Partial (measured on the "
+         "implementation, not proved): rotation, scaling, total = R + NR and the additivity of the SPECTRA themselves (pathway "
+         "generation and the cancellation of cross peaks against excited-state absorption are not modelled).",
     note="Lean kernel + standard axioms; no hypothesis about the Haar measure is left: an averaging functional with the listed "
          "properties is constructed (a finite rational 4-design) and every such functional gives the same value; pathway generation / "
          "line shapes observed only.",
